@@ -128,7 +128,9 @@ def run_behaviour(beh, fam, chunked, res, casedoc):
     trace = []
     h.app.event_manager.add_listener('method_context_closed', lambda ctx: trace.append(('CTXCLOSED',)))
     b.rec.reset()
-    b.rec.script['m'] = ('raise', lambda: Fault('Client.Custom', 'nope')) if kind == 'fault' else ('ret', 6)
+    # the user fault's code varies with the environment: Client, Server and a code outside both families
+    fcode = ('Client.Custom', 'Server.Custom', 'Other.Custom', 'VersionMismatch')[(beh['B'] + beh['L'] + beh['K'] + (1 if beh['short'] else 0)) % 4]
+    b.rec.script['m'] = ('raise', lambda: Fault(fcode, 'nope')) if kind == 'fault' else ('ret', 6)
     b.rec.script['g'] = ('gen', [1, 2])
     body = document(fam, kind, beh['B'])
     stream = drv.CountingInput(body, short=beh['short'])
@@ -154,8 +156,8 @@ def abstract(trace):
     out = []
     for t in trace:
         if t[0] == 'START':
-            st = t[1][:3]
-            out.append('START2xx' if st.startswith('2') else 'START413' if st == '413' else 'STARTerr')
+            st = t[1][:3] if isinstance(t[1], str) else ''
+            out.append('START2xx' if st.startswith('2') else 'START413' if st == '413' else 'STARTerr' if st[:1] in ('4', '5') else 'STARTinvalid')
         elif t[0] == 'CHUNK':
             if not out or out[-1] != 'CHUNK':
                 out.append('CHUNK')
